@@ -129,7 +129,7 @@ pub fn drive(args: &[String]) {
     let out = arg_val(args, "--out").expect("--out");
     let start = arg_num(args, "--start-case", 0) as usize;
     let append = arg_num(args, "--append", 0) == 1;
-    let mut w = TraceWriter::open(out, append, 3000);
+    let mut w = TraceWriter::open(out, append, 15_000);
     let mut keys: Vec<J> = (0..13).map(int).collect();
     keys.extend([int(-1), strv("a"), strv("ab"), strv("key"), real("0.5"), real("2.5"), nil()]);
     let vals: Vec<J> = vec![int(7), int(8), strv("a"), nil(), int(0), real("0.5")];
